@@ -39,6 +39,8 @@ def run(S):
     chain_monitor_completion(S, D)
     chain_monitor_update(S, D)
     manager_completion(S, D)
+    preimage_update_ids(S, D)
+    deferred_flush(S, D)
     channel_restore(S, D)
 
 
@@ -320,3 +322,140 @@ def manager_completion(S, D):
               bounds='%d in-flight updates with arbitrary ids; maps, locks, the channel and the resume machinery stubbed' % N)
         S.no_panic(ids[1], E, [], 'total', only=lambda p: 'overflow' not in p[1])
         S.witness(ids[2], E, [peer_known, z3.Not(any_left), chan_open, awaiting], did_resume)
+
+
+def preimage_update_ids(S, D):
+    """C09.e: FundedChannel::get_update_fulfill_htlc_and_commit with N held-back (blocked) monitor updates: the preimage
+    update, which must reach the chain::Watch at once, takes the id of the FIRST held-back update and every held-back
+    update moves up by one - so the ids handed out stay strictly increasing and gap-free."""
+    for N in ((0, 1, 2, 3) if S.tier == 'quick' else (0, 1, 2, 3, 4)):
+        tag = 'C09.e.n%d' % N
+        ids = [tag + '.ids_stay_gap_free', tag + '.witness']
+        if all(S._skip(o) for o in ids):
+            continue
+        f = S.fn('get_update_fulfill_htlc_and_commit')
+        E = S.engine(unwind=N + 1)
+        mem = {}
+        CC = D.struct_fields('ChannelContext')
+        FC = D.struct_fields('FundedChannel')
+        CU = D.struct_fields('ChannelMonitorUpdate')
+        PU = D.struct_fields('PendingChannelMonitorUpdate')
+        first = E.sym('first_blocked.update_id', 'u64')
+        E.assume(first.t + N + 2 <= U64)
+        uid = [X.I(first.t + i, 'u64') for i in range(N)]
+        ups = X.Seq([X.Adt('PendingChannelMonitorUpdate', {PU.index('update'): X.Adt('ChannelMonitorUpdate', {CU.index('update_id'): uid[i]}, base='upd%d' % i)}, base='pend%d' % i) for i in range(N)], N, 'PendingChannelMonitorUpdate')
+        latest0 = E.sym('channel.latest_monitor_update_id', 'u64')
+        if N:
+            E.assume(latest0.t == first.t + N - 1)       # ids are handed out consecutively: the last held-back one is the latest
+        E.assume(latest0.t + 2 <= U64)
+        ctx = X.Adt('ChannelContext', {CC.index('blocked_monitor_updates'): ups, CC.index('latest_monitor_update_id'): latest0}, base='ctx')
+        chan_c = E.new_cell()
+        mem[chan_c] = X.Adt('FundedChannel', {FC.index('context'): ctx}, base='chan')
+        dup = z3.Bool('claim.duplicate')
+        upd_blocked = z3.Bool('claim.update_blocked')
+        UF = lambda n: D.variant_index('UpdateFulfillFetch', n)
+        paused = []
+
+        def h_fulfill(E_, m, func, argv, guard, mem_, dty, caller):
+            # the real function takes the next id: latest_monitor_update_id += 1, update_id = that
+            r = argv[0]
+            ctxv = E.read_path(mem_[r.cell], r.path + (('f', FC.index('context'), 'ChannelContext'),), mem_, True, 'stub')
+            cur = E.read_path(ctxv, (('f', CC.index('latest_monitor_update_id'), 'u64'),), mem_, True, 'stub')
+            nxt = X.I(z3.If(dup, cur.t, cur.t + 1), 'u64')
+            mem_[r.cell] = E.write_path(mem_[r.cell], r.path + (('f', FC.index('context'), 'ChannelContext'), ('f', CC.index('latest_monitor_update_id'), 'u64')), nxt, mem_, guard, 'stub')
+            mu = X.Adt('ChannelMonitorUpdate', {CU.index('update_id'): X.I(cur.t + 1, 'u64'), CU.index('updates'): X.Seq([], 1, 'step')}, base='preimage_update')
+            return X.En('UpdateFulfillFetch', z3.If(dup, UF('DuplicateClaim'), UF('NewClaim')), {UF('NewClaim'): [mu, E.sym('htlc_value_msat', 'u64'), X.B(upd_blocked)], UF('DuplicateClaim'): []})
+
+        def h_build(E_, m, func, argv, guard, mem_, dty, caller):
+            r = argv[0]
+            ctxv = E.read_path(mem_[r.cell], r.path + (('f', FC.index('context'), 'ChannelContext'),), mem_, True, 'stub')
+            cur = E.read_path(ctxv, (('f', CC.index('latest_monitor_update_id'), 'u64'),), mem_, True, 'stub')
+            mem_[r.cell] = E.write_path(mem_[r.cell], r.path + (('f', FC.index('context'), 'ChannelContext'), ('f', CC.index('latest_monitor_update_id'), 'u64')), X.I(cur.t + 1, 'u64'), mem_, guard, 'stub')
+            return X.Adt('ChannelMonitorUpdate', {CU.index('update_id'): X.I(cur.t + 1, 'u64'), CU.index('updates'): X.Seq([], 1, 'step')}, base='commitment_update')
+        for rx, h in [
+            (r'FundedChannel::<.*>::get_update_fulfill_htlc::<', h_fulfill),
+            (r'FundedChannel::<.*>::build_commitment_no_status_check::<', h_build),
+            (r'FundedChannel::<.*>::monitor_updating_paused::<', lambda E_, m, func, argv, guard, *a: (paused.append(X.zbool(guard)), X.UNIT)[1]),
+            (r'Vec::<ChannelMonitorUpdateStep>::append$', lambda *a: X.UNIT),
+            (r'^format$|^must_use::<', lambda *a: X.Opaque('string')),
+        ]:
+            E.models.insert(0, (re.compile(rx), h))
+        args = [X.Ref(chan_c), X.Opaque('htlc id'), X.Opaque('preimage'), X.Opaque('payment info'), X.Opaque('attribution data'), X.Opaque('logger')]
+        rv = S.call(E, f, args, mem)
+        UC = lambda n: D.variant_index('UpdateFulfillCommitFetch', n)
+        is_new = X.zint(rv.d) == UC('NewClaim')
+        out = E.read_path(rv, (('v', 'NewClaim'), ('f', 0, 'ChannelMonitorUpdate'), ('f', CU.index('update_id'), 'u64')), mem, True, 'spec')
+        ctx2 = E.read_path(mem[chan_c], (('f', FC.index('context'), 'ChannelContext'),), mem, True, 'spec')
+        after = E.read_path(ctx2, (('f', CC.index('blocked_monitor_updates'), 'Vec'),), mem, True, 'spec')
+        latest2 = E.read_path(ctx2, (('f', CC.index('latest_monitor_update_id'), 'u64'),), mem, True, 'spec')
+        moved = []
+        if N:
+            if not isinstance(after, X.Seq):
+                raise X.Unsupported('blocked updates after the call: %r' % (after,))
+            for i in range(N):
+                u = E.read_path(after.elems[i], (('f', PU.index('update'), 'ChannelMonitorUpdate'), ('f', CU.index('update_id'), 'u64')), mem, True, 'spec')
+                moved.append(u.t == first.t + i + 1)
+        handed = (first.t if N else latest0.t + 1)
+        # debug builds assert that a held-back update implies update_blocked; the claim is about executions that pass it
+        prove(S, ids[0], E, [z3.Not(dup)] + ([upd_blocked] if N else []), z3.And(is_new, out.t == handed, *moved, latest2.t >= handed,
+                                                                       z3.Implies(N > 0, latest2.t == first.t + N)),
+                'a learned preimage is handed to the chain::Watch at once under the next id in sequence - the id of the first held-back update when some are held back, each of which moves up by one - so update ids stay strictly increasing and gap-free in the order they reach the chain::Watch',
+                given_no_panic=True,
+                bounds='%d held-back updates with consecutive ids; get_update_fulfill_htlc / build_commitment_no_status_check stubbed as "take the next id"' % N)
+        S.witness(ids[1], E, [z3.Not(dup)] + ([upd_blocked] if N else []), is_new)
+
+
+def deferred_flush(S, D):
+    """C09.f: ChainMonitor::flush (deferred mode), one queued operation: completion is signalled to the ChannelManager
+    only if the persister reported Completed for that very operation."""
+    ids = ['C09.f.completed_only_if_persisted', 'C09.f.witness']
+    if all(S._skip(o) for o in ids):
+        return
+    f = S.fn('flush', first_param='ChainMonitor')
+    E = S.engine(unwind=2)
+    mem = {}
+    CU = D.struct_fields('ChannelMonitorUpdate')
+    PO = lambda n: D.variant_index('PendingMonitorOp', n)
+    ST = lambda n: D.variant_index('ChannelMonitorUpdateStatus', n)
+    kind = E.sym('op.kind', 'u8')
+    E.assume(z3.Or(kind.t == PO('NewMonitor'), kind.t == PO('Update')))
+    have = z3.Bool('queue.nonempty')
+    upd_id, mon_id = E.sym('op.update.update_id', 'u64'), E.sym('op.monitor.latest_update_id', 'u64')
+    status = E.sym('persister.status', 'u8')
+    E.assume(z3.Or(status.t == ST('Completed'), status.t == ST('InProgress')))
+    signalled = []
+    popped = [0]
+
+    def h_pop(E_, m, func, argv, guard, mem_, dty, caller):
+        popped[0] += 1
+        op = X.En('PendingMonitorOp', kind.t, {PO('NewMonitor'): [X.Opaque('channel id'), X.Opaque('monitor')],
+                                               PO('Update'): [X.Opaque('channel id'), X.Adt('ChannelMonitorUpdate', {CU.index('update_id'): upd_id}, base='queued_update')]})
+        return X.En('Option', z3.If(have, 1, 0), {1: [op]})
+    for rx, h in [
+        (r'Mutex::<\(\)>::lock$', lambda *a: X.En('Result', 0, {0: [X.Opaque('flush guard')]})),
+        (r'Mutex::<VecDeque<PendingMonitorOp<.*>>>::lock$', lambda *a: X.En('Result', 0, {0: [X.Opaque('queue guard')]})),
+        (r'MutexGuard<.*VecDeque<PendingMonitorOp<.*>>> as (?:std::ops::)?DerefMut>::deref_mut$', lambda *a: X.Opaque('queue')),
+        (r'VecDeque::<PendingMonitorOp<.*>>::pop_front$', h_pop),
+        (r'ChannelMonitor::<.*>::get_latest_update_id$', lambda *a: mon_id),
+        (r'ChainMonitor::<.*>::watch_channel_internal$', lambda *a: X.En('Result', 0, {0: [X.En('ChannelMonitorUpdateStatus', status.t, {})]})),
+        (r'ChainMonitor::<.*>::update_channel_internal$', lambda *a: X.En('ChannelMonitorUpdateStatus', status.t, {})),
+        (r'ChainMonitor::<.*>::channel_monitor_updated$', lambda E_, m, func, argv, guard, *a: (signalled.append((X.zbool(guard), argv[2])), X.En('Result', 0, {0: [X.UNIT]}))[1]),
+        (r'Notifier::notify$', lambda *a: X.UNIT),
+        (r'Arc<Notifier> as (?:std::ops::)?Deref>::deref$', lambda *a: X.Opaque('notifier')),
+        (r'^format$|^must_use::<', lambda *a: X.Opaque('string')),
+        (r'WithChannelMonitor::from::<|WithContext::<.*>::from$', lambda *a: X.Opaque('logger')),
+        (r'Arguments::<.*>::from_str$|Arguments::<.*>::new', lambda *a: X.Opaque('fmt args')),
+        (r'Record::<.*>::new', lambda *a: X.Opaque('log record')),
+        (r'Logger>::log$', lambda *a: X.UNIT),
+        (r'Argument::<.*>::new_', lambda *a: X.Opaque('fmt arg')),
+        (r'^std::mem::drop::<', lambda *a: X.UNIT),
+    ]:
+        E.models.insert(0, (re.compile(rx), h))
+    args = [E.sym('self', f.params[0][1], mem), X.I(1, 'usize'), X.Opaque('logger')]
+    S.call(E, f, args, mem)
+    n_sig = z3.Sum([z3.If(g, 1, 0) for g, v in signalled]) if signalled else z3.IntVal(0)
+    want_id = z3.If(kind.t == PO('NewMonitor'), mon_id.t, upd_id.t)
+    prove(S, ids[0], E, [have], z3.And(n_sig == z3.If(status.t == ST('Completed'), 1, 0), *[z3.Implies(g, X.zint(v.t) == want_id) for g, v in signalled]),
+          'flushing a queued operation of a deferred ChainMonitor signals completion to the ChannelManager exactly when the persister reported Completed for that operation - a new monitor or an update whose write is still in progress stays pending until channel_monitor_updated is called for it - and it signals the id of that very operation',
+          given_no_panic=True, bounds='one queued operation (new monitor or update), persister answering Completed or InProgress; watch_channel_internal / update_channel_internal stubbed')
+    S.witness(ids[1], E, [have, status.t == ST('InProgress')], n_sig == 0)
